@@ -136,7 +136,7 @@ func (ye *YouTubeExtractor) getDataFromSrcURL(srcURL string) (string, map[string
 	for i := len(pathParts) - 1; i >= 0; i-- {
 		part := strings.TrimSpace(pathParts[i])
 		if part != "" {
-			if part != "embed" {
+			if part != "embed" && part != "v" {
 				videoID = part
 			}
 			break
